@@ -254,5 +254,15 @@ func VH_C12_IndentCooked() {
 		return
 	}
 	vhCheckFormat(src)
+	// a single line that starts in column 0: the output is exactly that line without its trailing
+	// blanks, plus a newline
+	out := FormatBytes(nil, append([]byte(nil), src...), vhOpts())
+	want := vhNorm(src)
+	vCheck(len(out) == len(want)+1, "cooked/exact-output-length")
+	if len(out) == len(want)+1 {
+		for i := range want {
+			vCheck(out[i] == want[i], "cooked/exact-output")
+		}
+	}
 	vReach("cooked/done")
 }
